@@ -84,6 +84,7 @@ def tokClass (cfg : String) (r : QReq) : String :=
     else if t == cfg then "exact"
     else if rest.contains cfg && cfg != "" then "second-value"
     else if t == "" then "empty"
+    else if t.all Char.isWhitespace then "whitespace-only"
     else if t.isPrefixOf cfg then "prefix"
     else if cfg.isPrefixOf t then "extension"
     else if t.toLower == cfg.toLower then "case-variant"
